@@ -639,6 +639,7 @@ META["C13"] = dict(
     rule="a case is (depth, two files?, leaf, tuple of forwarding patterns along the MRO); distinct by hash; non-trivial = the "
     "generated program imports and the interpreter accepts the model's parameter set.",
     gates={
+        "st.condition_on_a_parameter": g(100, 1000), "st.pattern.cond-class": g(50, 500),
         "mon.programs": g(600, 8000), "mon.parameter_sets_compared": g(500, 7000), "mon.parser_instantiations": g(400, 6000), "mon.required_enforced": g(50, 500),
         "st.depth.5": g(40, 400), "st.multiple_inheritance": g(50, 500), "st.two_source_files": g(100, 1000), "st.hard_coded_argument": g(100, 1000),
         "st.pattern.super": g(200, 2000), "st.pattern.super-hard": g(80, 800), "st.pattern.noinit": g(80, 800), "st.pattern.func": g(80, 800),
